@@ -5,9 +5,14 @@ whether each still raises a VIOLATION.   usage: tools/reseed.py [id-substring ..
 import glob, json, os, re, subprocess, sys
 V = "/verif"
 WT = "/tmp/reseed_wt"
-sel = sys.argv[1:]
+INPLACE = "--inplace" in sys.argv[1:]      # apply to /repo itself (git -C /repo apply; check; checkout -- .)
+sel = [a for a in sys.argv[1:] if a != "--inplace"]
 sh = lambda c, **k: subprocess.run(c, shell=True, stdout=subprocess.PIPE, stderr=subprocess.STDOUT, text=True, **k)
-sh(f"git -C /repo worktree remove --force {WT}; git -C /repo worktree prune; git -C /repo worktree add -q --detach {WT} HEAD")
+if INPLACE:
+    WT = "/repo"
+    assert sh("git -C /repo status --porcelain").stdout.strip() == "", "/repo is not clean"
+else:
+    sh(f"git -C /repo worktree remove --force {WT}; git -C /repo worktree prune; git -C /repo worktree add -q --detach {WT} HEAD")
 bad = []
 for d in sorted(glob.glob(f"{V}/seeded/*")):
     sid = os.path.basename(d)
@@ -30,12 +35,15 @@ for d in sorted(glob.glob(f"{V}/seeded/*")):
         bad.append(sid)
         continue
     for p in props:
-        r = sh(f"cd {V} && VERIF_REPO={WT} ./check {p} quick")
+        r = sh(f"cd {V} && VERIF_REPO={WT} ./check {p} quick") if not INPLACE else sh(f"cd {V} && ./check {p} quick")
         viol = [l for l in r.stdout.splitlines() if l.startswith("VIOLATION")]
         withinput = [l for l in viol if "no-failing-input-found" not in l]
         status = "DETECTED" if withinput else ("detected(no-input)" if viol else "NOT DETECTED")
         print(f"{sid}: {p}: {status}", flush=True)
         if not viol:
             bad.append(f"{sid}/{p}")
-sh(f"git -C /repo worktree remove --force {WT}; cd {V} && git checkout -q -- evidence")
+sh(f"git -C {WT} checkout -q -- .")
+if not INPLACE:
+    sh(f"git -C /repo worktree remove --force {WT}")
+sh(f"cd {V} && git checkout -q -- evidence")
 print("NOT DETECTED:", bad)
